@@ -80,7 +80,7 @@ class Layout:
         return [(h, (heads[j + 1] - 1) if j + 1 < len(heads) else len(self.lines) - 1) for j, h in enumerate(heads)]
 
 
-def concretise(kinds, nl, rng, pads=(0, 1, 5, 11), ulens=(0, 1, 2, 7), body=None):
+def concretise(kinds, nl, rng, pads=(0, 1, 5, 11), ulens=(0, 1, 2, 7), body=None, notation="iso"):
     """kinds: sequence of 'D'/'U'; nl: final newline present.  Byte lengths drawn from small sets so that
     every alignment against small block sizes occurs."""
     lines = []
@@ -91,7 +91,9 @@ def concretise(kinds, nl, rng, pads=(0, 1, 5, 11), ulens=(0, 1, 2, 7), body=None
         if kd == "D":
             k += rng.choice([0, 1, 1, 2])
             pad = rng.choice(pads)
-            ln = ts_for(k) + (b" " + b"p" * (pad - 1) if pad else b"")
+            if notation == "epoch":
+                pad = max(pad, 2)      # (a bare epoch value is recognised when a blank and one more byte follow it)
+            ln = ts_head(k, notation) + (b" " + b"p" * (pad - 1) if pad else b"")
         else:
             u = rng.choice(ulens)
             if last and not nl and u == 0:
